@@ -245,7 +245,14 @@ fn cli_case_json(c: &CliCase) -> Value {
 }
 
 fn run_cli(c: &CliCase) -> Result<bool, (String, String)> {
-    let (s, _) = Sess::<RawSet>::new(&c.cfg, None);
+    match c.cfg.set.as_str() {
+        "group" => run_cli_set::<vmodel::session::GroupSet>(c),
+        _ => run_cli_set::<RawSet>(c),
+    }
+}
+
+fn run_cli_set<S: vmodel::session::CmdSet>(c: &CliCase) -> Result<bool, (String, String)> {
+    let (s, _) = Sess::<S>::new(&c.cfg, None);
     let mut s = s.map_err(|e| ("construction succeeds".to_string(), format!("{:?}", e)))?;
     let mut m = RefHistory::new(c.cfg.hist_buf);
     let mut interesting = false;
@@ -332,7 +339,7 @@ fn run_cli(c: &CliCase) -> Result<bool, (String, String)> {
 }
 
 fn line_pool() -> Vec<&'static str> {
-    vec!["a", "b", "é", "ab", "a b", "₿", "abc", "get", "set x", "𝄞𝄞", "help", "abcdefgh", "Жук ест", "0123456789abcdef", "a", "b", "ab", "  ", " a", "  get", "a ", "x y z w", "0123456789012345678901234567890123456789ABCDE"]
+    vec!["a", "b", "é", "ab", "a b", "₿", "abc", "get", "set x", "𝄞𝄞", "help", "abcdefgh", "Жук ест", "0123456789abcdef", "a", "b", "ab", "  ", " a", "  get", "a ", "x y z w", "get-  ", "get-", "ge ", "ex  ", "ст ", "he  ", "get-led 1", "0123456789012345678901234567890123456789ABCDE"]
 }
 
 fn cli_case_strategy() -> impl Strategy<Value = CliCase> {
@@ -343,15 +350,19 @@ fn cli_case_strategy() -> impl Strategy<Value = CliCase> {
         8 => Just(Op::Up),
         5 => Just(Op::Down),
         2 => Just(Op::Backspace),
-        1 => Just(Op::Left),
+        3 => Just(Op::Left),
+        1 => Just(Op::Right),
+        // completion (also the silent kind that only drops blanks) must not confuse what gets recorded
+        3 => Just(Op::Tab),
         2 => any::<u16>().prop_map(|s| Op::Char(pick(&['a', 'b', 'é', ' ', '₿'], s))),
     ];
     let sizes = || prop_oneof![Just(0usize), Just(1), Just(2), Just(3), Just(4), Just(5), Just(6), Just(8), Just(10), Just(12), Just(16), Just(24), Just(32), Just(48), Just(64)];
-    (sizes(), sizes(), 0u8..4, proptest::collection::vec(op, 0..50)).prop_map(|(cb, hb, es, ops)| CliCase {
+    (sizes(), sizes(), 0u8..4, proptest::collection::vec(op, 0..50), 0u8..3).prop_map(|(cb, hb, es, ops, set)| CliCase {
         cfg: Config {
             cmd_buf: cb,
             hist_buf: hb,
             enter_style: es,
+            set: if set == 2 { "group".into() } else { "raw".into() },
             ..Config::default()
         },
         ops,
